@@ -144,6 +144,9 @@ structure Worker (V : Type) where
   awaited : List Nat := []
   /-- `awaiters_for_target: HashMap<ProcessId, Vec<ProcessId>>` -/
   awaitersFor : AMap (List Nat) := []
+  /-- which implementation is mirrored (configuration: no function changes it). `{}` = HEAD;
+      `selectWaitsForAnswer` = notes/C05-fixes/01 (a FAILED target is answered in the first answer) -/
+  variant : Variant := {}
 
 /-- internal errors `Worker::step` can return (`EnvironmentError`) -/
 inductive IErr where
@@ -158,7 +161,7 @@ inductive Cmd (V : Type) where
   | queryAndAwait (awaiter : Nat) (targets : List Nat)
   | effectCompletion (pid : Nat) (r : Option (Wire V))
   | notifySpawn (pid : Nat)
-  /-- `ResumeProcess` (REPL): errors unless the process exists, has not failed, and sleeps -/
+  /-- `ResumeProcess` (REPL): errors unless the process exists and sleeps; a FAILED process is left alone -/
   | resume (pid : Nat) (functionExists : Bool)
 
 /-- `Worker::notify_result` for one `(awaited, Some(result))` entry of `update_await_results`. -/
@@ -202,9 +205,25 @@ def Worker.completedValue {V} (w : Worker V) (target : Nat) : Option V :=
     | _, _ => none
   | none => none
 
-def Worker.queryOne {V} (w : Worker V) (awaiter target : Nat) : Worker V × (Nat × Option (Res V)) :=
+/-- `is_completed` of `query_and_await` with the result to include. HEAD: `Completed | Sleeping` only.
+    Variant `selectWaitsForAnswer`: `Failed` as well — the error belongs in this answer, not in a second
+    message after a placeholder. -/
+def Worker.completedResult {V} (w : Worker V) (target : Nat) : Option (Res V) :=
   match w.completedValue target with
-  | some v => (w, (target, some (.ok v)))
+  | some v => some (.ok v)
+  | none =>
+    if w.variant.selectWaitsForAnswer then
+      match w.ex.getProc target with
+      | some p =>
+        match w.ex.status target p, p.result with
+        | .failed, some (.err e) => some (.err e)
+        | _, _ => none
+      | none => none
+    else none
+
+def Worker.queryOne {V} (w : Worker V) (awaiter target : Nat) : Worker V × (Nat × Option (Res V)) :=
+  match w.completedResult target with
+  | some r => (w, (target, some r))
   | none =>
     ({ w with awaited := if target ∈ w.awaited then w.awaited else w.awaited ++ [target],
               awaitersFor := amInsert target ((amLookup target w.awaitersFor).getD [] ++ [awaiter]) w.awaitersFor },
@@ -283,7 +302,9 @@ def Worker.handleCommand {V} (w : Worker V) : Cmd V → Except IErr (Worker V ×
       | none => .error .processNotFound
       | some p =>
         match p.result with
-        | some (.err _) => .error .processFailed
+        -- /repo 6b45f34: a failed process is left alone (the result request that follows reports its
+        -- error); before, `Err(ProcessFailed)` left `Worker::step` and stopped the worker
+        | some (.err _) => .ok (w, [])
         | some (.ok _) => .ok ({ w with ex := { (w.ex.setProc pid { p with result := none }) with queue := w.ex.queue ++ [pid] } }, [])
         | none => .error .processNotSleeping
 
